@@ -17,28 +17,45 @@ import (
 	"google.golang.org/protobuf/reflect/protoreflect"
 	"google.golang.org/protobuf/reflect/protoregistry"
 
+	namemw "github.com/smart-core-os/sc-golang/pkg/middleware/name"
 	"github.com/smart-core-os/sc-golang/pkg/router"
 	"github.com/smart-core-os/sc-golang/verifharness/lib"
 )
 
 // routeCase determines one driven call completely (it is also the replay input).
 type routeCase struct {
-	Kind      string `json:"kind"` // "route"
-	Pkg       string `json:"pkg"`
-	Router    string `json:"router"`
-	Method    string `json:"method"`
-	Fb        string `json:"fallback"`
-	Fac       string `json:"factory"`
-	Ops       string `json:"ops"`
-	Name      string `json:"name"`      // token: ~ is the empty name, n1.. / a1.. are the unusual names of unusualNames
-	NameReal  string `json:"name_real"` // the real name, Go-quoted (documentation; derived from Name)
-	Streaming bool   `json:"streaming"`
-	ChildOut  string `json:"child_out,omitempty"`
-	Child     string `json:"child_script,omitempty"`
-	Caller    string `json:"caller_script,omitempty"`
-	MsgSeed   int64  `json:"msg_seed"`
-	ViaWrap   bool   `json:"via_wrapper,omitempty"`
-	Chain     bool   `json:"wrapped_children,omitempty"` // every child is Wrap(inner router -> fake client): Router ∘ Wrap ∘ Router
+	Kind      string     `json:"kind"` // "route"
+	Pkg       string     `json:"pkg"`
+	Router    string     `json:"router"`
+	Method    string     `json:"method"`
+	Fb        string     `json:"fallback"`
+	Fac       string     `json:"factory"`
+	Ops       string     `json:"ops"`
+	Name      string     `json:"name"`      // token: ~ is the empty name, n1.. / a1.. are the unusual names of unusualNames
+	NameReal  string     `json:"name_real"` // the real name, Go-quoted (documentation; derived from Name)
+	Streaming bool       `json:"streaming"`
+	ChildOut  string     `json:"child_out,omitempty"`
+	Child     string     `json:"child_script,omitempty"`
+	Caller    string     `json:"caller_script,omitempty"`
+	MsgSeed   int64      `json:"msg_seed"`
+	ViaWrap   bool       `json:"via_wrapper,omitempty"`
+	Chain     bool       `json:"wrapped_children,omitempty"` // every child is Wrap(inner router -> fake client): Router ∘ Wrap ∘ Router
+	Served    *servedOpt `json:"served,omitempty"`           // the handler runs behind the default-name interceptors (served.go)
+}
+
+// servedOpt: the call is served as a grpc.Server would serve it, the default-name interceptors of
+// pkg/middleware/name in front of the generated handler, the request delivered by a transport.
+type servedOpt struct {
+	Default   string `json:"default"`   // name token, like routeCase.Name
+	Transport string `json:"transport"` // ow | mg | f<tok> | of<tok> (stream: the ServerStream's RecvMsg; unary: the decode function)
+}
+
+// effName is the name token the request is served under.
+func (c routeCase) effName() string {
+	if c.Served != nil && unTilde(c.Name) == "" {
+		return c.Served.Default
+	}
+	return c.Name
 }
 
 // Names in the line protocol are tokens without spaces. The model is parametric in names (it only
@@ -180,8 +197,8 @@ type routerRig struct {
 	nfac    int
 	pool    map[string]bool // names ever mentioned
 	results []string
-	typed   bool // use the generated typed accessors (Add<Client>, Remove<Client>, Get<Client>)
-	chain   bool // children are generated wrappers around an inner router that holds the fake client
+	typed   bool                // use the generated typed accessors (Add<Client>, Remove<Client>, Get<Client>)
+	chain   bool                // children are generated wrappers around an inner router that holds the fake client
 	cb      func(router.Change) // runs inside the onChange callback after the change was logged (re-entrant callbacks)
 }
 
@@ -370,6 +387,31 @@ type routeOutcome struct {
 	recvs     int
 	hasName   bool
 	events    []string
+	wire      string // served cases: the request on the wire, field by field (model input)
+}
+
+// reqSeen renders the request the first child call carried, field by field (`-`: no call).
+func reqSeen(calls []call) string {
+	if len(calls) == 0 || calls[0].Req == nil {
+		return "-"
+	}
+	return msgTokNamed(calls[0].Req)
+}
+
+// msgTokNamed renders a request field by field like msgTok, the string field `name` as a name TOKEN (the
+// injective dictionary the registry operations use), so that the model compares like with like.
+func msgTokNamed(m proto.Message) string {
+	var fs []string
+	fds := m.ProtoReflect().Descriptor().Fields()
+	for i := 0; i < fds.Len(); i++ {
+		fd := fds.Get(i)
+		if fd.TextName() == "name" && fd.Kind() == protoreflect.StringKind && !fd.IsList() && !fd.IsMap() {
+			fs = append(fs, "name:S:"+tilde(m.ProtoReflect().Get(fd).String()))
+			continue
+		}
+		fs = append(fs, fieldTok(m.ProtoReflect(), fd))
+	}
+	return commaList(fs)
 }
 
 func showCalls(sd protoreflect.ServiceDescriptor, calls []call, req proto.Message) string {
@@ -416,6 +458,11 @@ func runRoute(e entry, c routeCase) (out routeOutcome, err error) {
 	}
 	out.hasName = setName(req, unTilde(c.Name))
 	orig := proto.Clone(req)
+	if c.Served != nil {
+		// the forwarder must be handed the request with nothing but an empty name filled in
+		setName(orig, unTilde(c.effName()))
+		g.pool[unTilde(c.effName())] = true
+	}
 	out.req = orig
 	ctx, cancelAll := context.WithCancel(context.WithValue(context.Background(), ctxKey{}, "marker"))
 	defer cancelAll()
@@ -461,18 +508,27 @@ func runRoute(e entry, c routeCase) (out routeOutcome, err error) {
 			if h == nil {
 				return out, fmt.Errorf("%s: ServiceDesc has no unary method %s", e.id(), c.Method)
 			}
-			resp, rerr = h(impl, ctx, func(in any) error { proto.Merge(in.(proto.Message), req); return nil }, nil)
+			if c.Served != nil {
+				out.wire = msgTokNamed(req)
+				resp, rerr = h(impl, ctx, func(in any) error { return transportRecv(c.Served.Transport, nil, req, in) },
+					namemw.IfAbsentUnaryInterceptor(unTilde(c.Served.Default)))
+			} else {
+				resp, rerr = h(impl, ctx, func(in any) error { proto.Merge(in.(proto.Message), req); return nil }, nil)
+			}
 		}
 		out.resp, out.err, out.calls = resp, rerr, g.rec.calls
 		o := ""
 		if rerr != nil {
-			o = "e" + errTok(rerr, unTilde(c.Name))
+			o = "e" + errTok(rerr, unTilde(c.effName()))
 		} else if pm, ok := resp.(proto.Message); ok && plan.Resp != nil && proto.Equal(pm, plan.Resp) {
 			o = "m3"
 		} else {
 			o = "m0"
 		}
 		out.answer = "calls=" + showCalls(sd, g.rec.calls, orig) + " out=" + o + " " + g.stateString()
+		if c.Served != nil {
+			out.answer = "req=" + reqSeen(g.rec.calls) + " " + out.answer
+		}
 		return
 	}
 
@@ -526,7 +582,19 @@ func runRoute(e entry, c routeCase) (out routeOutcome, err error) {
 	if h == nil {
 		return out, fmt.Errorf("%s: ServiceDesc has no stream %s", e.id(), c.Method)
 	}
-	rerr := h(impl, ss)
+	var rerr error
+	if c.Served != nil {
+		out.wire = msgTokNamed(req)
+		ss.transport = c.Served.Transport
+		if i := strings.IndexByte(ss.transport, 'f'); i >= 0 {
+			t, _ := strconv.Atoi(ss.transport[i+1:])
+			ss.recvErr = tokErr(t, rng)
+		}
+		ic := namemw.IfAbsentStreamInterceptor(unTilde(c.Served.Default))
+		rerr = ic(impl, ss, &grpc.StreamServerInfo{FullMethod: out.fullMeth, IsServerStream: true}, h)
+	} else {
+		rerr = h(impl, ss)
+	}
 	out.err, out.calls, out.recvs = rerr, g.rec.calls, g.rec.recvs
 	cancelled := false
 	if len(g.rec.calls) > 0 {
@@ -576,13 +644,25 @@ func runRoute(e entry, c routeCase) (out routeOutcome, err error) {
 		evS = "na"
 	}
 	out.events = append([]string(nil), g.rec.events...)
+	state := g.stateString()
 	out.answer = fmt.Sprintf("calls=%s hdr=%s sent=%s sends=%d recvs=%d tr=%s st=%s cancel=%s ev=%s %s",
-		showCalls(sd, g.rec.calls, orig), hdr, commaList(sent), ss.sends, g.rec.recvs, tr, errTok(rerr, unTilde(c.Name)), cancelS, evS, g.stateString())
+		showCalls(sd, g.rec.calls, orig), hdr, commaList(sent), ss.sends, g.rec.recvs, tr, errTok(rerr, unTilde(c.Name)), cancelS, evS, state)
+	if c.Served != nil {
+		out.answer = fmt.Sprintf("req=%s calls=%s hdr=%s sent=%s sends=%d recvs=%d tr=%s st=%s cancel=%s %s", reqSeen(g.rec.calls),
+			showCalls(sd, g.rec.calls, orig), hdr, commaList(sent), ss.sends, g.rec.recvs, tr, errTok(rerr, unTilde(c.effName())), cancelS, state)
+	}
 	return
 }
 
 func (c routeCase) modelLine() string {
 	// the method token is filled in by the caller (index in the service descriptor)
+	if c.Served != nil {
+		// the wire message is filled in after the run (second verb)
+		if c.Streaming {
+			return fmt.Sprintf("srv %s %s %s %s %%d S %s z %%s %s %s", c.Served.Default, c.Fb, c.Fac, tildeList(c.Ops), c.Served.Transport, c.Child, c.Caller)
+		}
+		return fmt.Sprintf("srv %s %s %s %s %%d U %%s %s", c.Served.Default, c.Fb, c.Fac, tildeList(c.Ops), c.ChildOut)
+	}
 	if c.Streaming {
 		return fmt.Sprintf("route %s %s %s %s %%d 5 S %s %s", c.Fb, c.Fac, tildeList(c.Ops), c.Name, c.Child, c.Caller)
 	}
@@ -671,8 +751,29 @@ func monitorRoute(mon *lib.Monitor, e entry, c routeCase, o routeOutcome) {
 	if c.ViaWrap {
 		sig = func(class string) string { return "C12/" + e.id() + "+wrapper/" + c.Method + "/" + class }
 	}
+	given := c
+	if c.Served != nil {
+		// behind the default-name interceptors a request is served under its name, or under the default when
+		// it has none; everything the property says about forwarding then applies to that name
+		kind := "unary"
+		if c.Streaming {
+			kind = "stream"
+		}
+		sig = func(class string) string { return "C12/" + e.id() + "+default-name/" + kind + "/" + class }
+		if strings.Contains(c.Served.Transport, "f") {
+			// the transport's RecvMsg failed: the error is returned, no client is touched
+			if len(o.calls) != 0 {
+				mon.Violate(sig("recv-error-touched-client"), "a request that could not be received must touch no client", given, "no child call", fmt.Sprintf("%d child calls", len(o.calls)))
+			}
+			if o.ss != nil && !sameStatus(o.err, o.ss.recvErr) {
+				mon.Violate(sig("recv-error-altered"), "the transport's RecvMsg error must be returned unaltered", given, fmt.Sprint(o.ss.recvErr), fmt.Sprint(o.err))
+			}
+			return
+		}
+		c.Name = c.effName()
+	}
 	target, ok := oracleTarget(c)
-	viol := func(class, what, exp, obs string) { mon.Violate(sig(class), what, c, exp, obs) }
+	viol := func(class, what, exp, obs string) { mon.Violate(sig(class), what, given, exp, obs) }
 	if !ok {
 		if len(o.calls) != 0 {
 			viol("notfound-touched-client", "a name with no client must touch no client", "no child call", fmt.Sprintf("%d child calls", len(o.calls)))
